@@ -57,16 +57,17 @@ def _scalar_shapes(case):
     return False
 
 
-def engine_quirk(ex, case):
+def engine_quirk(ex, case, ref=None):
     """Failures that are bugs of the execution engine, not of the library (DESIGN §4.15)."""
     msg = str(ex)
     if exc_name(ex) in ("InvalidOperationError", "ShapeError") and (
             "doesn't match the DataFrame height" in msg or "must have same length as DataFrame" in msg
-            or "output length of `map`" in msg):
+            or "output length of `map`" in msg or "produced different length" in msg):
         if _scalar_shapes(case):
             return "polars_scalar_broadcast"
     if exc_name(ex) in ("InvalidOperationError", "PanicException", "SchemaError", "ComputeError") and (
-            "null" in msg or "Null" in msg) and any(len(t["rows"]) == 0 for t in case["tables"]):
+            "null" in msg or "Null" in msg) and (any(len(t["rows"]) == 0 for t in case["tables"]) or (
+                ref is not None and any(t.n == 0 for t in ref.vars.values()))):
         return "polars_empty_frame_null_dtype"  # typing of all-null results over empty frames
     if exc_name(ex) == "InvalidOperationError" and "joining with repeated key names" in msg:
         return "polars_repeated_join_key"  # Polars limitation on join keys (join docstring note)
@@ -118,7 +119,7 @@ def classify_case(case, out: Outcome):
 
 
 def examine_pipeline(case, out: Outcome, *, backends=("polars", "sqlite"), ref_compare=True, differential=False,
-                     result_vars=None, localize=True):
+                     result_vars=None, localize=True, close=True):
     """Returns PipelineRun. Failures are recorded on `out`."""
     run = PipelineRun(case)
     steps = case["steps"]
@@ -183,7 +184,7 @@ def examine_pipeline(case, out: Outcome, *, backends=("polars", "sqlite"), ref_c
                 if kind == "sqlite" and is_refusal(ex):
                     out.count("sql_refused_at_export:" + exc_name(ex))
                     continue
-                q = engine_quirk(ex, run.case2)
+                q = engine_quirk(ex, run.case2, run.ref)
                 if q:
                     out.count("engine_quirk:" + q)
                     continue
@@ -218,7 +219,8 @@ def examine_pipeline(case, out: Outcome, *, backends=("polars", "sqlite"), ref_c
                     continue
                 where = first_diff_divergence(run, rv) if localize else "?"
                 out.fail("mismatch", f"differential:{mm.kind}:{where}", f"Polars vs SQLite at {rv}: {mm}", var=rv)
-    _close(run)
+    if close:
+        _close(run)
     return run
 
 
@@ -231,6 +233,10 @@ def _noopt_agrees(tbl, compare):
     except BaseException as ex:  # noqa: BLE001
         reraise_control(ex)
         return False
+
+
+def close_run(run):
+    _close(run)
 
 
 def _close(run):
